@@ -111,13 +111,13 @@ def check_dateinterval(ctx, case):
 
 
 def check_dateinterval_ctor(ctx, case):
-    from pyoda_time import CalendarSystem, DateInterval
+    from pyoda_time import CalendarSystem, DateInterval, LocalDate
     from vf import gen
     cid = case["cal"]; cal = CalendarSystem.for_id(cid)
     lo, hi = gen.cal_range(cid)
     ctx.ev(4); ctx.count("dateinterval_ctor")
-    def V(k):
-        ctx.V(f"C18:dateinterval-{k}", f"DateInterval {k} in {cid}", case)
+    def V(k, extra=""):
+        ctx.V(f"C18:dateinterval-{k}", f"DateInterval {k} in {cid} {extra}", case)
     x = case["x"]
     try:
         DateInterval(gen.date_of(x + 1, cal), gen.date_of(x, cal)); V("ctor-end-before-start-accepted")
@@ -130,6 +130,19 @@ def check_dateinterval_ctor(ctx, case):
         DateInterval(gen.date_of(x, cal), gen.date_of(max(y, x) + 2, other)); V("ctor-mixed-calendars-accepted")
     except ValueError:
         pass
+    # ... also when the two dates carry the same year/month/day numbers in different calendars
+    d0 = gen.date_of(x, cal); y0, m0, dd0 = gen.ymd(d0)
+    for oc in (CalendarSystem.iso, CalendarSystem.julian, CalendarSystem.gregorian, CalendarSystem.coptic):
+        if oc is cal: continue
+        try:
+            twin = LocalDate(y0, m0, dd0, oc)
+        except Exception:  # noqa: BLE001  (no such date in that calendar)
+            continue
+        for a_, b_ in ((d0, twin), (twin, d0)):
+            try:
+                DateInterval(a_, b_); V("ctor-mixed-calendars-accepted", f"same y/m/d {y0}-{m0}-{dd0} in {a_.calendar.id} and {b_.calendar.id}")
+            except ValueError:
+                pass
     A = DateInterval(gen.date_of(x, cal), gen.date_of(x + 1, cal))
     O = DateInterval(gen.date_of(y, other), gen.date_of(y + 1, other))
     for nm, f in (("and", lambda: A & O), ("or", lambda: A | O), ("contains-interval", lambda: O in A), ("contains-day", lambda: gen.date_of(y, other) in A)):
@@ -200,6 +213,14 @@ def check_interval(ctx, case):
             V(tag + "deconstruct", [repr(x) for x in dec], (a, b))
 
     observe(iv, "")
+    # the text form names the bounds it has (and the start/end-of-time markers only for the bounds it lacks)
+    try:
+        from pyoda_time.text import InstantPattern
+        want_txt = ("StartOfTime" if a is None else InstantPattern.extended_iso.format(ins(a))) + "/" + ("EndOfTime" if b is None else InstantPattern.extended_iso.format(ins(b)))
+        for nm_, txt in (("repr", repr(iv)), ("str", str(iv))):
+            if txt != want_txt: V(f"text-form:{nm_}", txt, want_txt)
+    except Exception as e:  # noqa: BLE001
+        ctx.exc(e); V(f"text-form-raised:{type(e).__name__}", repr(e))
     # a copy (copy / deepcopy / pickle round trip) of an interval - bounded or not - is the same interval
     import copy
     import pickle
